@@ -99,3 +99,18 @@ contract(f"{G}::PrimaiteGame.setup_reward_sharing", props=["C10"], bounded=2,
                   ("cyclic_rejected", "not cyclic(seq(the_graph()))")],
          raises={"RuntimeError": "True"},
          modifies=["heap"], allocates=True)
+
+# ---- the weights of the sum are the configured weights (C10 "reward = weighted sum of the configured components") ---------------------------
+contract(f"{RW}::RewardFunction.register_component", props=["C10"],
+         ensures=[("appended_with_its_weight", "len(self.reward_components) == old(len(self.reward_components)) + 1"
+                                               " and self.reward_components[len(self.reward_components) - 1][0] is component"
+                                               " and self.reward_components[len(self.reward_components) - 1][1] == weight"),
+                  ("earlier_kept", "forall(k, 0, old(len(self.reward_components)), self.reward_components[k] is old(self.reward_components[k]))")],
+         modifies=["self.reward_components[*]"], allocates=True)
+contract(f"{RW}::RewardFunction.__init__#components", props=["C10"], bounded=2,
+         region=("block", {"start": "for rew_config in self.config.reward_components", "count": 1}),
+         types={"self": "RewardFunction"},
+         requires=["len(self.reward_components) == 0", "forall(j, 0, len(self.config.reward_components), self.config.reward_components[j].type in AbstractReward._registry)"],
+         ensures=[("one_component_per_entry_with_its_weight", "len(self.reward_components) == len(self.config.reward_components)"
+                                                              " and forall(j, 0, len(self.config.reward_components), self.reward_components[j][1] == self.config.reward_components[j].weight)")],
+         modifies=["heap"], allocates=True)
